@@ -360,12 +360,50 @@ fn part_a(report: &Report) {
             events.push(ev);
         }
         // through the real log, a snapshot and back
-        for e in &events {
-            log.append(e).expect("append");
+        // every frame is ON DISK when its append returns (a reader may replay the store at any
+        // moment of a run, not only after its last frame): the file grows by exactly one line
+        // that reads back as the frame. Then one frame per string field with a 1.5 MB value (a
+        // message or an input just under the HTTP body limit): it must be accepted and read back.
+        let mut huge: Vec<Event> = Vec::new();
+        if let Some(first) = shapes.first() {
+            for key in first.as_object().map(|o| o.keys().cloned().collect::<Vec<_>>()).unwrap_or_default() {
+                if first[&key].is_string() && !matches!(key.as_str(), "type" | "id" | "session_id" | "stream_kind" | "stream_id") {
+                    let mut shape = first.clone();
+                    shape[&key] = json!("h".repeat(1_500_000));
+                    if let Ok(ev) = serde_json::from_value::<Event>(shape) {
+                        huge.push(ev);
+                    }
+                }
+            }
+        }
+        report.count("frames_with_a_1_5_MB_field", huge.len() as u64);
+        let mut on_disk = std::fs::metadata(&log_path).map(|m| m.len()).unwrap_or(0);
+        for (i, e) in events.iter().chain(huge.iter()).enumerate() {
+            if let Err(err) = log.append(e) {
+                report.violation(&format!("C03:append_refused:{ty}"), json!({"engine": "H-inputs", "harness": "c03.shapes", "frame_type": ty, "frame_no": i, "huge_field": i >= events.len()}), &format!("the log refuses a frame the system can emit: {err}"));
+                continue;
+            }
+            let now = std::fs::metadata(&log_path).map(|m| m.len()).unwrap_or(0);
+            let added: Vec<u8> = {
+                use std::io::{Read, Seek, SeekFrom};
+                let mut f = std::fs::File::open(&log_path).expect("log file");
+                f.seek(SeekFrom::Start(on_disk)).expect("seek");
+                let mut buf = Vec::new();
+                f.take(now.saturating_sub(on_disk)).read_to_end(&mut buf).expect("read");
+                buf
+            };
+            on_disk = now;
+            let text = String::from_utf8_lossy(&added);
+            let lines: Vec<&str> = text.lines().collect();
+            let ok = text.ends_with('\n') && lines.len() == 1 && serde_json::from_str::<Event>(lines[0]).map(|b| event_json(&b) == event_json(e)).unwrap_or(false);
+            if !ok {
+                report.violation(&format!("C03:appended_frame_not_on_disk:{ty}"), json!({"engine": "H-inputs", "harness": "c03.shapes", "frame_type": ty, "frame_no": i}), &format!("append returned Ok; the file grew by {} bytes holding {} line(s), not by the one line of this frame", added.len(), lines.len()));
+                break;
+            }
         }
         match EventLog::new(&log_path).and_then(|l| l.replay()) {
             Ok(back) => {
-                let got: Vec<Value> = back.iter().map(event_json).collect();
+                let got: Vec<Value> = back.iter().take(originals.len()).map(event_json).collect();
                 if got != originals {
                     report.violation(&format!("C03:log_replay_differs:{ty}"), json!({"frame_type": ty}), "frames replayed from the log differ from the frames appended");
                 }
